@@ -20,6 +20,9 @@ import time
 
 VERIF = os.path.dirname(os.path.abspath(__file__))
 REPO = os.environ.get("VERIF_REPO", "/repo")
+# where build output, scratch files, evidence and replays go (default: /verif itself); runs against deliberately
+# broken trees set VERIF_OUT to a scratch directory so that /verif/evidence only ever describes /repo
+OUT = os.environ.get("VERIF_OUT", VERIF)
 
 # id -> package directory (relative to the module root) the harness is compiled into
 CHECKS = {
@@ -80,7 +83,7 @@ def build(cid, race=False, extra_overlay=None, suffix="", pkg=None):
     cfg = dict(CHECKS[cid])
     if pkg:
         cfg["pkg"] = pkg
-    bdir = os.path.join(VERIF, ".build")
+    bdir = os.path.join(OUT, ".build")
     os.makedirs(bdir, exist_ok=True)
     ov = os.path.join(bdir, f"{cid}{suffix}.overlay.json")
     with open(ov, "w") as fh:
@@ -123,9 +126,9 @@ def run_check(cid, tier, replay=None):
     binp, bt = build(cid)
     env = goenv()
     env["VERIF_TIER"] = tier
-    env["VERIF_ROOT"] = VERIF
+    env["VERIF_ROOT"] = OUT
     env["VERIF_KNOWN"] = os.path.join(VERIF, "known_findings.json")
-    env["VERIF_EVIDENCE"] = os.path.join(VERIF, "evidence", cid + ".json")
+    env["VERIF_EVIDENCE"] = os.path.join(OUT, "evidence", cid + ".json")
     env["VERIF_REPO"] = REPO
     env.setdefault("VERIF_SEED", "0")
     if replay:
@@ -135,7 +138,7 @@ def run_check(cid, tier, replay=None):
 
 def run_multi(cid, tier, replay, t0):
     """A check whose harness lives in several packages: one test binary per package, evidence merged."""
-    scratch = os.path.join(VERIF, ".scratch", cid)
+    scratch = os.path.join(OUT, ".scratch", cid)
     os.makedirs(scratch, exist_ok=True)
     for f in glob.glob(os.path.join(scratch, "part-*.json")):
         os.remove(f)
@@ -143,7 +146,7 @@ def run_multi(cid, tier, replay, t0):
     for i, pkg in enumerate(CHECKS[cid]["pkgs"]):
         binp, bt = build(cid, suffix=f"-{i}", pkg=pkg)
         env = goenv()
-        env.update({"VERIF_TIER": tier, "VERIF_ROOT": VERIF, "VERIF_KNOWN": os.path.join(VERIF, "known_findings.json"),
+        env.update({"VERIF_TIER": tier, "VERIF_ROOT": OUT, "VERIF_KNOWN": os.path.join(VERIF, "known_findings.json"),
                     "VERIF_EVIDENCE": os.path.join(scratch, f"part-{i}.json"), "VERIF_REPO": REPO, "VERIF_PART": str(i)})
         env.setdefault("VERIF_SEED", "0")
         if replay:
@@ -162,7 +165,7 @@ def run_multi(cid, tier, replay, t0):
         # separate free-running pass of the same bodies under the race detector
         binp, bt = build(cid, race=True, suffix="-race", pkg=rp)
         env = goenv()
-        env.update({"VERIF_TIER": tier, "VERIF_ROOT": VERIF, "VERIF_KNOWN": os.path.join(VERIF, "known_findings.json"),
+        env.update({"VERIF_TIER": tier, "VERIF_ROOT": OUT, "VERIF_KNOWN": os.path.join(VERIF, "known_findings.json"),
                     "VERIF_EVIDENCE": os.path.join(scratch, "part-race.json"), "VERIF_REPO": REPO, "VERIF_RACE": "1",
                     "GORACE": "halt_on_error=0"})
         env.setdefault("VERIF_SEED", "0")
@@ -173,8 +176,8 @@ def run_multi(cid, tier, replay, t0):
         out = buf.getvalue()
         sys.stdout.write(out)
         if "WARNING: DATA RACE" in out:
-            os.makedirs(os.path.join(VERIF, "replays", cid), exist_ok=True)
-            path = os.path.join(VERIF, "replays", cid, "race-report.txt")
+            os.makedirs(os.path.join(OUT, "replays", cid), exist_ok=True)
+            path = os.path.join(OUT, "replays", cid, "race-report.txt")
             open(path, "w").write(out)
             print(f"VIOLATION property={cid} replay={path}")
             print("  the free-running -race pass reported a data race")
@@ -248,14 +251,14 @@ def merge_parts(cid, tier, scratch, wall, refusal=None, exhaustive_family=None):
         cov["known_findings_hit"] = sorted(known)
     out = {"property_id": cid, "tier": tier, "seed": int(os.environ.get("VERIF_SEED", "0") or 0), "level": "model_checking",
            "coverage": cov, "assumptions": assumptions, "wall_s": round(wall, 3), "violations": viol}
-    os.makedirs(os.path.join(VERIF, "evidence"), exist_ok=True)
-    with open(os.path.join(VERIF, "evidence", cid + ".json"), "w") as fh:
+    os.makedirs(os.path.join(OUT, "evidence"), exist_ok=True)
+    with open(os.path.join(OUT, "evidence", cid + ".json"), "w") as fh:
         json.dump(out, fh, indent=1)
         fh.write("\n")
 
 
 def run_binary(cid, binp, env, t0, bt, args=None):
-    scratch = os.path.join(VERIF, ".scratch", cid)
+    scratch = os.path.join(OUT, ".scratch", cid)
     os.makedirs(scratch, exist_ok=True)
     cmd = [binp, "-test.run", f"^TestVerif{cid}$", "-test.timeout", "0", "-test.count", "1"] + (args or [])
     p = subprocess.Popen(cmd, cwd=scratch, env=env, stdout=subprocess.PIPE, stderr=subprocess.STDOUT, text=True)
